@@ -455,7 +455,33 @@ func genHostile(r *vkit.Run, salt uint16) (ins []*input) {
 			spec.Wire(), nil)
 	}
 
-	// 5. Structural oddities.
+	// 5. Messages longer than the default UDP read buffer: valid queries
+	// padded to the size, and garbage.
+	for k, size := range []int{513, 600, 1400, 4000, 514, 1232, 2000, 3000} {
+		rng := r.Rand("hostile-oversize", k)
+		spec := &tbench.QuerySpec{
+			Flags: tbench.FlagRD, QType: dns.TypeA, QClass: dns.ClassINET,
+			Name: tbench.GenNameOfKind(rng, tbench.NameMixedCase, []byte("big")),
+			OPT:  &tbench.OPTSpec{UDPSize: 4096, Options: []tbench.Option{{Code: tbench.OptPadding}}},
+		}
+		if size <= 4000 {
+			spec.OPT.Options[0].Data = make([]byte, size-len(spec.Wire()))
+			add("oversize", fmt.Sprintf("valid query padded to %d bytes", size), spec.Wire(), nil)
+		}
+
+		garbage := make([]byte, size)
+		for i := range garbage {
+			garbage[i] = byte(rng.UintN(256))
+		}
+		add("oversize", fmt.Sprintf("random len=%d", size), garbage, nil)
+
+		// A valid, complete query followed by filler: the first 512 bytes
+		// hold all of it.
+		filler := append(tbench.SimpleQuery(0, "Big.Filler.test.", dns.TypeA, dns.ClassINET), make([]byte, size-33)...)
+		add("oversize", fmt.Sprintf("valid query followed by zeros, %d bytes", len(filler)), filler, nil)
+	}
+
+	// 6. Structural oddities.
 	simple := tbench.SimpleQuery(0, "struct.test.", dns.TypeA, dns.ClassINET)
 	long := &tbench.QuerySpec{Flags: tbench.FlagRD, QType: dns.TypeA, QClass: dns.ClassINET}
 	for i := 0; i < 5; i++ {
